@@ -33,6 +33,9 @@ impl Prop for C12 {
                     "+--+\n|  |\n+--+\n# Legend:\na = {fill:red}\n", "ab\n# Legend:\n",
                     "漢字漢字 \"abcdefgh\" |", "漢字漢字漢字 \"abcdefgh\" |", "一二三四五六七八 \"abcdefghij\"|", "一 \"a\" -", "é一 \"lbl\"|", "+--+\r\n|ab|\r\n+--+\r\n", "a\r\nb\r\nc", "*-->\r\n\r\ntext\r\n",
                     "", " ", "\n\n", "   \n  ",
+                    // blanks other than the ASCII space at the right and bottom edge occupy no cell
+                    "+--+\u{a0}\u{a0}\u{a0}\n|  |\n+--+", "ab\u{3000}", "ab\n\u{2003}\u{2003}\u{2003}", "ab\u{b}", "a\u{2028}", "\u{a0}", "+-+\n\u{a0}\u{a0}\u{a0}\u{a0}\u{a0}", "x\t\t",
+                    "ab\u{c}", "ab \u{1680}\u{2000}\u{200a}\u{202f}\u{205f}", "ab\n\u{85}",
                 ] {
                     f(Case::s(d));
                 }
